@@ -338,6 +338,93 @@ def job_detach_in_update(args):
         signal.alarm(0)
 
 
+def job_register_in_callback(args):
+    """C20, directed: a function is registered from inside running callbacks (lazily, by the listener that needs it), twice:
+    the first registration is accepted, the repeat refused, and from then on the function receives every notification of
+    its kind exactly once (whether it also receives the notification in delivery is left open)"""
+    import impl
+
+    seed, = args
+    rng = random.Random(seed)
+    signal.signal(signal.SIGALRM, _alarm)
+    signal.alarm(60)
+    try:
+        prog = progs.gen_program(rng, depth=2, ploops=False)
+        text = progs.print_program(prog, indent=4)
+        answers = sc.Answers(random.Random(seed + 1))
+        imm_mod = rng.choice([0, 2, 3])
+        run = impl.Run(text, ids="test", answers=answers, imm=(lambda k: imm_mod and k % imm_mod == 0))
+        if run.s is None or not run.valid:
+            return {"seed": seed, "skip": True}
+        for j in (0, 1):
+            for k in ("ts", "ss", "sf", "tf"):
+                run.register(k, j)
+        who_kind, new_kind = rng.choice(["ts", "ss", "sf", "tf"]), rng.choice(["ts", "ss", "sf", "tf"])
+        at = rng.randint(1, 4)
+        second = rng.choice(["same_callback", "next_listener", "later_delivery"])
+        before = rng.random() < 0.2  # already registered before start(): both registrations from inside are repeats
+        reg = {"ts": run.s.register_callback_task_started, "tf": run.s.register_callback_task_finished,
+               "ss": run.s.register_callback_service_started, "sf": run.s.register_callback_service_finished}[new_kind]
+        state = {"n": 0, "rets": [], "first_done": False, "cur": None, "second_done": False}
+        n0, late = {}, {}
+
+        def late_fn(api):
+            if state["first_done"] or before:
+                late[api.uuid] = late.get(api.uuid, 0) + 1
+
+        if before:
+            state["rets"].append(("before start()", reg(late_fn)))
+        orig = run.notified
+
+        def notified(kind, j, api):
+            orig(kind, j, api)
+            if kind == new_kind and j == 0 and (state["first_done"] or before):
+                n0[api.uuid] = n0.get(api.uuid, 0) + 1
+            if kind != who_kind:
+                return
+            if j == 0 and not state["first_done"]:
+                state["n"] += 1
+                if state["n"] == at:
+                    state["rets"].append(("first, from inside a %s callback" % who_kind, reg(late_fn)))
+                    state["first_done"] = True
+                    state["cur"] = api.uuid if who_kind == new_kind else None
+                    state["delivery"] = (kind, api.uuid)
+                    if second == "same_callback":
+                        state["rets"].append(("repeat, from inside the same callback", reg(late_fn)))
+                        state["second_done"] = True
+            elif state["first_done"] and not state["second_done"]:
+                if (second == "next_listener" and j == 1 and state.get("delivery") == (kind, api.uuid)) or \
+                        (second == "later_delivery" and j == 0):
+                    state["rets"].append(("repeat, from inside %s" % ("the next callback of the same delivery" if second == "next_listener" else "a callback of a later delivery"), reg(late_fn)))
+                    state["second_done"] = True
+
+        run.notified = notified
+        c = run.start()
+        n = 0
+        while run.pending and n < 25 and not c.get("exc"):
+            c = run.complete(rng.choice(run.pending))
+            n += 1
+        problems = []
+        if c.get("exc") and c["exc"] != "RecursionError":
+            problems.append("a call raised %s" % c["exc"])
+        seen_true = False
+        for what, ret in state["rets"]:
+            if ret is not (not seen_true):
+                problems.append("registration of one function for %s notifications (%s) reported %r, expected %r" % (new_kind, what, ret, not seen_true))
+            seen_true = True
+        for u in set(n0) | set(late):
+            a, b = n0.get(u, 0), late.get(u, 0)
+            if not (a == b or (u == state["cur"] and b == a + 1)):
+                problems.append("the function registered from inside a callback was invoked %d times for %d %s notification(s) of %s" % (b, a, new_kind, u))
+                break
+        return {"seed": seed, "text": text, "problems": problems[:2], "plan": [who_kind, new_kind, at, second, before],
+                "registered": state["first_done"], "later": sum(n0.values())}
+    except CaseTimeout:
+        return {"seed": seed, "skip": True}
+    finally:
+        signal.alarm(0)
+
+
 def job_observer_completion(args):
     """C08, directed: the execution engine learns about a started service from the LOG entry delivered to an attached
     observer and reports it finished from inside update(): the service has been announced, so the report is accepted
@@ -795,6 +882,21 @@ def _run(ctx, cfg, n_cases, pool, res):
                                                          "text": r["text"], "job_seed": r["seed"], "plan": r["plan"],
                                                          "how": "re-run: tools/sched_family.job_detach_in_update((job_seed,))"}})
         res["notes"].append("detach from inside observer.update(): %d runs in which the detach happened" % ndet)
+    # C20: registration from inside running callbacks ----------------------------------------------------
+    if prop == "C20":
+        nreg = nlater = 0
+        for r in pool.map(job_register_in_callback, [(seed * 13 + i,) for i in range(80 if tier == "quick" else 800)], chunksize=2):
+            if r.get("skip"):
+                continue
+            nreg += int(bool(r.get("registered")))
+            nlater += r.get("later", 0)
+            if r["problems"] and "register_in_callback" not in seen_rules:
+                seen_rules.add("register_in_callback")
+                res["violations"].append({"rule": "register_in_callback", "msg": r["problems"][0] + " (plan %r)" % (r["plan"],),
+                                          "replay_obj": {"property": prop, "family": "sched", "rule": "register_in_callback", "message": r["problems"][0],
+                                                         "text": r["text"], "job_seed": r["seed"], "plan": r["plan"],
+                                                         "how": "re-run: tools/sched_family.job_register_in_callback((job_seed,))"}})
+        res["notes"].append("registration from inside callbacks: %d runs in which it happened, %d later notifications checked" % (nreg, nlater))
     # C08: completion reported from inside an observer's update() ---------------------------------------
     if prop in ("C08", "C01"):
         nobs = 0
